@@ -245,7 +245,7 @@ def do_run(spec):
             grid = G.build_grid({"ctor": "fixed", "dim": 1, "h": 0.05, "n": 13}, model)
             from rpylib.process.markovchain.markovchain import MarkovChainProcess
 
-            proc = MarkovChainProcess(model=model, method=C.sampling_method("BINARYSEARCHTREEADAPTED1D"), grid=grid)
+            proc = MarkovChainProcess(model=model, method=C.sampling_method(spec.get("method", "BINARYSEARCHTREEADAPTED1D")), grid=grid)
         elif spec["process"] == "copula":
             from rpylib.process.markovchain.markovchainlevycopula import MarkovChainLevyCopula
 
@@ -275,7 +275,7 @@ def do_run(spec):
         else:
             model = W.build_model(fixed["hem"])
             grid = G.build_grid({"ctor": "fixed", "dim": 1, "h": 0.1, "n": 9}, model)
-            cp = CouplingMarkovChain(model=model, method=C.sampling_method("BINARYSEARCHTREEADAPTED1D"), grid=grid)
+            cp = CouplingMarkovChain(model=model, method=C.sampling_method(spec.get("method", "BINARYSEARCHTREEADAPTED1D")), grid=grid)
         conf = ConfigurationMultiLevel(convergence_rates=ConvergenceRates(alpha=1.0, beta=2.0, gamma=1.0), initial_level=2 if spec["process"] != "copula" else 1,
                                        maximum_level=3 if spec["process"] != "copula" else 2, initial_mc_paths=spec["paths"], seed=spec.get("seed"), nb_of_processes=spec["workers"])
         eng = Engine(conf, cp)
